@@ -24,7 +24,10 @@ theorem Deribit.sumSizes_sane (cx : DCtx) (h : Deribit.FloatSane cx) (ls : List 
   have : ∀ a : Rat, ls.foldl (fun acc l => cx.num.add acc (cx.reprD l.size)) a = a + (ls.map (fun l => cx.reprD l.size)).sum := by
     induction ls with
     | nil => simp
-    | cons l ls ih => intro a; simp [List.foldl, ih, NumCtx.add, h.rnd_id, add_assoc]
+    | cons l ls ih =>
+      intro a
+      simp only [List.foldl_cons, List.map_cons, List.sum_cons]
+      rw [ih]; simp only [NumCtx.add, h.rnd_id]; ring
   rw [this 0]; simp
 
 /-- **fills exactly the requested amount — for real floats**: if the printed sizes are non-negative and the amount
